@@ -34,7 +34,7 @@ Known == {"nl.bsn", "nl.onderwijsnummer", "pl.nip", "pl.regon", "pt.nif", "dk.cv
           "iso6346", "be.eid", "de.stnr", "isan", "meid"}
 (* formats with further rules (dates, ranges) that are not transcribed: the checksum is only a NECESSARY condition *)
 Necessary == {"no.fodselsnummer", "fi.hetu", "ch.ssn", "lv.pvn", "pl.pesel", "ee.ik", "at.tin", "dk.cpr", "za.idnr", "se.personnummer", "cz.bankaccount",
-              "sg.uen", "ro.onrc", "id.nik", "id.npwp", "cn.ric", "be.nn", "be.bis", "us.ssn", "us.itin", "us.atin", "us.ein", "nz.bankaccount", "my.nric", "mac", "imsi", "cfi", "isil", "at.postleitzahl"}
+              "sg.uen", "ro.onrc", "id.nik", "id.npwp", "cn.ric", "be.nn", "be.bis", "us.ssn", "us.itin", "us.atin", "us.ein", "nz.bankaccount", "my.nric", "mac", "imsi", "cfi", "isil", "at.postleitzahl", "eu.nace", "be.ssn"}
 
 WRev(c, n, w) == Sum(LAMBDA i : w[i] * D(c[n + 1 - i]), n)      \* weights counted from the right over the first n characters
 LuhnSum(c) == Sum(LAMBDA i : IF (Len(c) - i) % 2 = 1 THEN DigitSum(2 * D(c[i])) ELSE D(c[i]), Len(c))
@@ -643,4 +643,7 @@ NecessaryN(m, c) ==
     [] m = "cfi" -> Len(c) = 6 /\ \A i \in 1..6 : c[i] \in 65..90
     [] m = "isil" -> Len(c) <= 15 /\ \A i \in 1..Len(c) : (c[i] \in 48..57) \/ (c[i] \in 65..90) \/ (c[i] \in 97..122) \/ c[i] \in {45, 58, 47}
     [] m = "at.postleitzahl" -> Len(c) = 4 /\ IsDigits(c)
+    [] m = "eu.nace" -> Len(c) \in 1..4 /\ (IF Len(c) = 1 THEN IsAlphaCp(c[1]) ELSE IsDigits(c))
+    [] m = "be.ssn" -> /\ Len(c) = 11 /\ IsDigits(c) /\ ~AllZero(c) /\ BeNnChecksum(c)
+                       /\ (NumOf(c, 3, 4) <= 12 \/ NumOf(c, 3, 4) \in 20..32 \/ NumOf(c, 3, 4) \in 40..52)
 =============================================================================
